@@ -88,7 +88,26 @@ def a1(chk, repo):
                 sample={"mapping": got})
 
 
-def a2_a5(chk, repo):
+def summary_published_as_parsed(chk, repo):
+    """C14-S10: what io.open publishes under summary/ is the group open_summary built - io.open does not edit it (same model as C13-A2)"""
+    chk.rule("C14-S10", "io.open publishes the summary group as open_summary built it: no attribute or list of it is changed while the product is assembled", 5)
+    a2_a5(chk, repo, rule_summary="C14-S10", summary_only=True)
+
+
+def _plain(v, depth=0):
+    from ..shapes import Const, DictS, ListLit, Obj, TupS
+    if isinstance(v, Const):
+        return ("c", repr(v.v))
+    if isinstance(v, (ListLit, TupS)):
+        return (type(v).__name__, tuple(_plain(x, depth + 1) for x in v.elts))
+    if isinstance(v, DictS):
+        return ("d", tuple((k, _plain(x, depth + 1)) for k, x in v.items.items()))
+    if isinstance(v, Obj) and depth < 8:
+        return (v.cls, tuple((k, _plain(x, depth + 1)) for k, x in v.fields.items()))
+    return ("?", id(v))
+
+
+def a2_a5(chk, repo, rule_summary="C13-A2", summary_only=False):
     """io.open evaluated by the shape interpreter on a model product: the four openers are replaced by recording stubs
     (summary with known file roles, volume directory / leader / image groups that carry marks), the options get
     distinctive values.  What is decided is which file goes to which opener, in which order, and where each result ends
@@ -132,17 +151,29 @@ def a2_a5(chk, repo):
         sc.vars["open_sar_leader"] = rec("open_sar_leader", lambda a, k: marks["leader"])
         I.module_scope(si).vars["open_image"] = rec("open_image", image)
         sc.vars["sar_image"] = __import__("vlib.shapes", fromlist=["ModuleRef"]).ModuleRef(mod=si)
+        before = _plain(summary)
         try:
             out = I.call(I.lookup("open", sc), [Const("s3://bucket/product")], {"records_per_chunk": Const(7), "create_cache": Const(True), "use_cache": Const(False)})
         except (ShapeError, _Raise, RecursionError) as e:
+            if summary_only:
+                raise AnalysisError(f"{where}: model evaluation not possible ({str(e)[:80]})")
             return a2_a5_syntactic(chk, repo, note=f"model evaluation not possible ({str(e)[:80]})")
         if not (isinstance(out, Obj) and out.cls == "Group" and isinstance(out.fields.get("data"), DictS) and isinstance(out.fields.get("attrs"), DictS)):
+            if summary_only:
+                raise AnalysisError(f"{where}: model evaluation does not give a definite tree")
             return a2_a5_syntactic(chk, repo, note="model evaluation does not give a definite tree")
         listed = [x.v if isinstance(x, Const) else None for x in roles.items["sar_imagery"].elts] if isinstance(roles.items.get("sar_imagery"), ListLit) else None
-        chk.require(listed == images, "C13-A2", where, "the file list published under summary/product_information/data_files is left as the summary gives it",
+        if listed == images:
+            after = _plain(summary)
+            chk.require(after == before, rule_summary, where, "the summary group is published as open_summary built it",
+                        "io.open changes the summary group it got from open_summary (an attribute, list or member is edited in place): what is published under summary/ is no longer what the summary file says",
+                        key="open:summary-group-untouched")
+        chk.require(listed == images, rule_summary, where, "the file list published under summary/product_information/data_files is left as the summary gives it",
                     f"after io.open the summary's own list of image files reads {listed}, the summary file lists {images}: opening re-orders / edits the published attribute in place",
                     key="open:summary-list-untouched")
         results.append((images, out, calls, marks))
+    if summary_only:
+        return
     for images, out, calls, marks in results:
         n = len(images)
         by = {}
